@@ -1,3 +1,277 @@
-import LpModel.C01
+/-
+  C01 — Interpolants reproduce the data and never overshoot it.
+
+  Property theorems about the executable model `LpModel.Interp` (+ `LpModel.C01`), over exact
+  rationals (every finite `double` table is a rational table; rounding is absorbed and measured by
+  the class-B correspondence of props/c01.py).  Helper lemmas: `LpProofs/C01/Kernel.lean`,
+  `LpProofs/C01/Table.lean`, `LpProofs/C01/Locate.lean`.
+
+  Notation.  A table is `N`, `x y : Nat → Rat` (the driver instantiates `x i = xs[i]`);
+  `StrictInc N x` is the constructor's guard; `cubic N x y j v` is the cubic of interval `j`
+  at abscissa `v` — by `cubicAt_eq`/`interpolate_eq` exactly what `Interpolate(v)` returns
+  (up to the prefactor) when `Locate(v) = j`; `cubicD1..3` are what `Derivative(v,1..3)` returns
+  (`derivative_eq`).  None of the segment theorems needs `3 ≤ N` (which the constructor demands):
+  they hold for every interval `j` with `j + 1 < N`.
+-/
+import LpProofs.C01.Kernel
+import LpProofs.C01.Table
+import LpProofs.C01.Locate
+
 namespace Lp.C01
+open Lp Lp.Interp
+
+/-! ## 1. Knots are reproduced; value and first derivative are continuous across knots -/
+
+/-- kernel: a segment takes `d` and slope `c` at its left end -/
+theorem seg_left (a b c d : Rat) : segEval a b c d 0 = d ∧ segD1 a b c 0 = c :=
+  ⟨segEval_zero a b c d, segD1_zero a b c⟩
+
+/-- kernel: with the Hermite coefficients of the C++ the segment takes `y0 + s*h` (= `y_{j+1}`)
+    at its right end; needs only `h ≠ 0` -/
+theorem seg_right {h : Rat} (hh : h ≠ 0) (s dl dr y0 : Rat) :
+    segEval (segA h s dl dr) (segB h s dl dr) dl y0 h = y0 + s * h := segEval_right hh s dl dr y0
+
+theorem seg_d1_left (a b c : Rat) : segD1 a b c 0 = c := segD1_zero a b c
+
+/-- kernel: the first derivative at the right end is the slope `dr` handed in for that knot -/
+theorem seg_d1_right {h : Rat} (hh : h ≠ 0) (s dl dr : Rat) :
+    segD1 (segA h s dl dr) (segB h s dl dr) dl h = dr := segD1_right hh s dl dr
+
+/-- every table, every interval: the interpolant returns the tabulated values at both ends -/
+theorem interp_reproduces_knots {N : Nat} {x y : Nat → Rat} (hx : StrictInc N x) {j : Nat} (hj : j + 1 < N) :
+    cubic N x y j (x j) = y j ∧ cubic N x y j (x (j + 1)) = y (j + 1) :=
+  ⟨cubic_left N x y j, cubic_right hx hj⟩
+
+/-- every table, every interior knot `x_{j+1}`: value and first derivative of the two adjacent
+    segments agree there (C¹), and both equal `y_{j+1}` resp. the limited slope `dy_{j+1}` -/
+theorem interp_C1 {N : Nat} {x y : Nat → Rat} (hx : StrictInc N x) {j : Nat} (hj : j + 2 < N) :
+    cubic N x y j (x (j + 1)) = cubic N x y (j + 1) (x (j + 1))
+    ∧ cubicD1 N x y j (x (j + 1)) = cubicD1 N x y (j + 1) (x (j + 1))
+    ∧ cubicD1 N x y j (x (j + 1)) = dy N x y (j + 1) := by
+  have hj' : j + 1 < N := by omega
+  refine ⟨?_, ?_, cubicD1_right hx hj'⟩
+  · rw [cubic_right hx hj', cubic_left]
+  · rw [cubicD1_right hx hj', cubicD1_left]
+
+example : StrictInc 4 (fun i => (i : Rat)) := by
+  intro i _; push_cast; linarith
+
+/-! ## 2. The reported derivatives are the derivatives of the returned cubic -/
+
+/-- the Taylor expansion of the segment about any point, with the reported derivatives as
+    coefficients, is the segment itself (a polynomial identity: it characterises them uniquely);
+    likewise for the reported first and second derivative -/
+theorem seg_taylor (a b c d t δ : Rat) :
+    segEval a b c d (t + δ) = segEval a b c d t + segD1 a b c t * δ + segD2 a b t * δ ^ 2 / 2 + segD3 a * δ ^ 3 / 6
+    ∧ segD1 a b c (t + δ) = segD1 a b c t + segD2 a b t * δ + segD3 a * δ ^ 2 / 2
+    ∧ segD2 a b (t + δ) = segD2 a b t + segD3 a * δ :=
+  ⟨segEval_taylor a b c d t δ, segD1_taylor a b c t δ, segD2_taylor a b t δ⟩
+
+/-- table level: on every interval, for all `v`, `δ` -/
+theorem interp_taylor (N : Nat) (x y : Nat → Rat) (j : Nat) (v δ : Rat) :
+    cubic N x y j (v + δ) = cubic N x y j v + cubicD1 N x y j v * δ + cubicD2 N x y j v * δ ^ 2 / 2
+      + cubicD3 N x y j * δ ^ 3 / 6 := by
+  unfold cubic cubicD1 cubicD2 cubicD3
+  have e : v + δ - x j = (v - x j) + δ := by ring
+  rw [e]; exact segEval_taylor _ _ _ _ _ _
+
+/-- what `Interpolate` / `Derivative(·,k)` return, given the interval `Locate` chose: the cubic and
+    its derivatives times the prefactor; order ≥ 4 returns 0 -/
+theorem queries_are_cubic {o o' : Obj} {v : Rat} {j : Nat} (hl : o.locate v = .ok (j, o')) :
+    o.interpolate v = .ok (o.pref * cubic o.N o.x o.y j v, o')
+    ∧ o.derivative v 1 = .ok (o.pref * cubicD1 o.N o.x o.y j v, o')
+    ∧ o.derivative v 2 = .ok (o.pref * cubicD2 o.N o.x o.y j v, o')
+    ∧ o.derivative v 3 = .ok (o.pref * cubicD3 o.N o.x o.y j, o')
+    ∧ ∀ k, 4 ≤ k → o.derivative v k = .ok (0, o') :=
+  ⟨interpolate_eq hl, derivative_eq hl⟩
+
+/-! ## 3. The Steffen limiter -/
+
+/-- kernel: interior and boundary formulas, for all arguments (also all sign cases of
+    `Sign a + Sign b`): the slope has the sign of each neighbouring secant (or vanishes) and
+    `|dy| ≤ 2·min(|s_{i-1}|,|s_i|)` (boundary: `≤ 2|s_0|`) -/
+theorem limiter_box_kernel (hm h sm s h0 h1 s0 s1 : Rat) :
+    (0 ≤ dyInterior hm h sm s * s ∧ 0 ≤ dyInterior hm h sm s * sm
+      ∧ rabs (dyInterior hm h sm s) ≤ 2 * rmin (rabs sm) (rabs s))
+    ∧ (0 ≤ dyEdge h0 h1 s0 s1 * s0 ∧ rabs (dyEdge h0 h1 s0 s1) ≤ 2 * rabs s0) := by
+  have br := dyInterior_box_right hm h sm s
+  have bl := dyInterior_box_left hm h sm s
+  have be := dyEdge_box h0 h1 s0 s1
+  refine ⟨⟨br.mul_nonneg, bl.mul_nonneg, ?_⟩, be.mul_nonneg, be.abs_le⟩
+  have := le_rmin (a := rabs (dyInterior hm h sm s) / 2) (x := rabs sm) (y := rabs s)
+    (by have := bl.abs_le; linarith) (by have := br.abs_le; linarith)
+  linarith
+
+/-- every table (no hypothesis on the abscissae is needed), every knot `i`, every interval `j`
+    adjacent to it: `dy_i · s_j ≥ 0` and `|dy_i| ≤ 2|s_j|` -/
+theorem limiter_box (N : Nat) (x y : Nat → Rat) (i j : Nat) (hi : i < N) (hj : j + 1 < N)
+    (hadj : j = i ∨ j + 1 = i) :
+    0 ≤ dy N x y i * s x y j ∧ rabs (dy N x y i) ≤ 2 * rabs (s x y j) :=
+  ⟨(dy_box N x y i j hj hi hadj).mul_nonneg, (dy_box N x y i j hj hi hadj).abs_le⟩
+
+/-- where the data have a local extremum or a plateau (`s_{i-1}·s_i ≤ 0`) the slope is zero -/
+theorem limiter_zero_at_extremum (N : Nat) (x y : Nat → Rat) (i : Nat) (hi : i + 1 < N) (h0 : 0 < i)
+    (hext : s x y (i - 1) * s x y i ≤ 0) : dy N x y i = 0 := by
+  have b1 := dy_box N x y i i hi (by omega) (Or.inl rfl)
+  have b0 := dy_box N x y i (i - 1) (by omega) (by omega) (Or.inr (by omega))
+  rcases le_total 0 (s x y i) with h | h <;> rcases le_total 0 (s x y (i - 1)) with h' | h'
+  · have e1 := (b1.1 h); have e0 := (b0.1 h')
+    rcases eq_or_lt_of_le h with hz | hp
+    · rw [← hz] at e1; linarith [e1.1, e1.2]
+    · have : s x y (i - 1) = 0 := by nlinarith
+      rw [this] at e0; linarith [e0.1, e0.2]
+  · linarith [(b1.1 h).1, (b0.2 h').2]
+  · linarith [(b1.2 h).2, (b0.1 h').1]
+  · have e1 := (b1.2 h); have e0 := (b0.2 h')
+    rcases eq_or_lt_of_le h with hz | hp
+    · rw [hz] at e1; linarith [e1.1, e1.2]
+    · have : s x y (i - 1) = 0 := by nlinarith
+      rw [this] at e0; linarith [e0.1, e0.2]
+
+/-! ## 4. Monotone and bounded on every interval of every table -/
+
+/-- the certificate of DESIGN.md: with end slopes in `[0,3s]` the first derivative is `≥ 0` on `[0,h]` -/
+theorem seg_d1_nonneg {h s dl dr t : Rat} (hh : 0 < h) (hl0 : 0 ≤ dl) (hl : dl ≤ 3 * s)
+    (hr0 : 0 ≤ dr) (hr : dr ≤ 3 * s) (ht0 : 0 ≤ t) (ht : t ≤ h) :
+    0 ≤ segD1 (segA h s dl dr) (segB h s dl dr) dl t := segD1_nonneg hh hl0 hl hr0 hr ht0 ht
+
+example : (0 : Rat) < 2 ∧ (0 : Rat) ≤ 1 ∧ (1 : Rat) ≤ 3 * 1 ∧ (0 : Rat) ≤ 3 ∧ (3 : Rat) ≤ 3 * 1 := by norm_num
+
+/-- increments of the cubic are Simpson's rule applied to the reported first derivative (exact) -/
+theorem seg_diff (a b c d t t' : Rat) :
+    segEval a b c d t' - segEval a b c d t =
+      (t' - t) * (segD1 a b c t + 4 * segD1 a b c ((t + t') / 2) + segD1 a b c t') / 6 :=
+  segEval_diff a b c d t t'
+
+/-- THE HEART OF THE PROPERTY.  For every table with strictly increasing abscissae, every interval
+    `j`, all `v ≤ v'` in `[x_j, x_{j+1}]`: the interpolant is monotone in the direction of the data -/
+theorem interp_monotone_on_segment {N : Nat} {x y : Nat → Rat} (hx : StrictInc N x) {j : Nat} (hj : j + 1 < N)
+    {v v' : Rat} (h0 : x j ≤ v) (h1 : v ≤ v') (h2 : v' ≤ x (j + 1)) :
+    (y j ≤ y (j + 1) → cubic N x y j v ≤ cubic N x y j v')
+    ∧ (y (j + 1) ≤ y j → cubic N x y j v' ≤ cubic N x y j v) :=
+  ⟨fun hy => cubic_mono_up hx hj hy h0 h1 h2, fun hy => cubic_mono_down hx hj hy h0 h1 h2⟩
+
+/-- … and stays between the two tabulated neighbours: no extremum that is not in the data -/
+theorem interp_between_neighbours {N : Nat} {x y : Nat → Rat} (hx : StrictInc N x) {j : Nat} (hj : j + 1 < N)
+    {v : Rat} (h0 : x j ≤ v) (h1 : v ≤ x (j + 1)) :
+    rmin (y j) (y (j + 1)) ≤ cubic N x y j v ∧ cubic N x y j v ≤ rmax (y j) (y (j + 1)) :=
+  cubic_between hx hj h0 h1
+
+/-- the same for the object, with a prefactor of either sign (`Set_Prefactor`, `Multiply`) -/
+theorem cubicAt_between_neighbours (o : Obj) (hx : StrictInc o.N o.x) {j : Nat} (hj : j + 1 < o.N)
+    {v : Rat} (h0 : o.x j ≤ v) (h1 : v ≤ o.x (j + 1)) :
+    rmin (o.pref * o.y j) (o.pref * o.y (j + 1)) ≤ o.cubicAt j v
+    ∧ o.cubicAt j v ≤ rmax (o.pref * o.y j) (o.pref * o.y (j + 1)) := by
+  rw [cubicAt_eq]; exact scale_between o.pref (cubic_between hx hj h0 h1)
+
+/-- request level: a freshly constructed object (`jLast = 0`, `correlated_calls = false`), any
+    abscissa of the tabulated domain: `Interpolate` answers, the interval it used brackets the
+    abscissa, and the value lies between the two neighbouring tabulated values (times prefactor) -/
+theorem interpolate_fresh_between (o : Obj) (hN : 2 ≤ o.N) (hx : StrictInc o.N o.x) (hst : o.st.corr = false)
+    {v : Rat} (h0 : o.x 0 ≤ v) (h1 : v ≤ o.x (o.N - 1)) :
+    ∃ j o' r, o.interpolate v = .ok (r, o') ∧ j + 1 < o.N ∧ o.x j ≤ v ∧ v ≤ o.x (j + 1)
+      ∧ rmin (o.pref * o.y j) (o.pref * o.y (j + 1)) ≤ r ∧ r ≤ rmax (o.pref * o.y j) (o.pref * o.y (j + 1)) := by
+  obtain ⟨j, o', hl, hj, hb0, hb1⟩ := locate_fresh_bracket o hN hx hst h0 h1
+  refine ⟨j, o', _, interpolate_eq hl, hj, hb0, hb1, ?_⟩
+  have := cubicAt_between_neighbours o hx hj hb0 hb1
+  rwa [cubicAt_eq] at this
+
+/-- the constructor's guards give exactly the hypotheses used above -/
+theorem mk_gives_hypotheses {xs ys : List Rat} {xdim fdim : Rat} {o : Obj} (hmk : mk xs ys xdim fdim = .ok o) :
+    3 ≤ o.N ∧ StrictInc o.N o.x ∧ o.st.corr = false ∧ o.pref = 1 := mk_ok hmk
+
+example : ∃ o, mk [0, 1, 3, 7] [5, -2, -2, 11] (-1) (-1) = .ok o := ⟨_, rfl⟩
+
+/-! ## 5. Exactness on straight lines and (limiter inactive) on parabolas -/
+
+/-- data on a straight line are reproduced exactly — any `N ≥ 3`, any spacing, every interval, every
+    abscissa (also in the extrapolation zone); the reported derivatives are `m, 0, 0` -/
+theorem steffen_linear_exact {N : Nat} {x y : Nat → Rat} (hN : 3 ≤ N) (hx : StrictInc N x) {m q : Rat}
+    (hy : ∀ i, i < N → y i = m * x i + q) {j : Nat} (hj : j + 1 < N) (v : Rat) :
+    cubic N x y j v = m * v + q ∧ cubicD1 N x y j v = m ∧ cubicD2 N x y j v = 0 ∧ cubicD3 N x y j = 0 :=
+  cubic_linear hN hx hy hj v
+
+/-- data on a parabola are reproduced exactly on every interval at whose two ends the limiter is
+    inactive (`limiterInactive`: the limited slope equals the un-limited estimate; decidable) -/
+theorem steffen_parabola_exact {N : Nat} {x y : Nat → Rat} (hN : 3 ≤ N) (hx : StrictInc N x) {α β γ : Rat}
+    (hy : ∀ i, i < N → y i = α * x i ^ 2 + β * x i + γ) {j : Nat} (hj : j + 1 < N)
+    (hl : limiterInactive N x y j) (hr : limiterInactive N x y (j + 1)) (v : Rat) :
+    cubic N x y j v = α * v ^ 2 + β * v + γ ∧ cubicD1 N x y j v = 2 * α * v + β
+      ∧ cubicD2 N x y j v = 2 * α ∧ cubicD3 N x y j = 0 :=
+  cubic_parabola hN hx hy hj hl hr v
+
+/-- non-vacuity: on `x = 1,2,3,5`, `y = x²` the limiter is inactive at every knot
+    (also at both boundary knots) -/
+example : ∀ i, i < 4 → limiterInactive 4 (fun i => [1, 2, 3, 5].getD i 0) (fun i => [1, 4, 9, 25].getD i 0) i := by
+  decide +kernel
+
+/-- … and it is active e.g. at a local extremum of the data: the estimate is `1/2`, the slope `0` -/
+example : dy 4 (fun i => [1, 2, 3, 5].getD i 0) (fun i => [1, 4, 2, 25].getD i 0) 1 = 0
+    ∧ pEst 4 (fun i => [1, 2, 3, 5].getD i 0) (fun i => [1, 4, 2, 25].getD i 0) 1 = 1 / 2 := by
+  decide +kernel
+
+/-! ## 6. Two-dimensional (bilinear) interpolant -/
+
+/-- grid values are returned at the four nodes of every cell -/
+theorem bilinear_at_nodes {x y : Nat → Rat} (F : Nat → Nat → Rat) {i j : Nat}
+    (hx : x i ≠ x (i + 1)) (hy : y j ≠ y (j + 1)) :
+    cell x y F i j (x i) (y j) = F i j ∧ cell x y F i j (x (i + 1)) (y j) = F (i + 1) j
+    ∧ cell x y F i j (x (i + 1)) (y (j + 1)) = F (i + 1) (j + 1) ∧ cell x y F i j (x i) (y (j + 1)) = F i (j + 1) := by
+  have hx' : x (i + 1) - x i ≠ 0 := sub_ne_zero.mpr (Ne.symm hx)
+  have hy' : y (j + 1) - y j ≠ 0 := sub_ne_zero.mpr (Ne.symm hy)
+  unfold cell bilinear
+  simp only [sub_self, zero_div, div_self hx', div_self hy']
+  refine ⟨by ring, by ring, by ring, by ring⟩
+
+/-- inside a cell the value stays within the minimum and maximum of the four surrounding values -/
+theorem bilinear_in_hull {x y : Nat → Rat} (F : Nat → Nat → Rat) {i j : Nat}
+    (hx : x i < x (i + 1)) (hy : y j < y (j + 1)) {vx vy : Rat}
+    (hx0 : x i ≤ vx) (hx1 : vx ≤ x (i + 1)) (hy0 : y j ≤ vy) (hy1 : vy ≤ y (j + 1)) :
+    min4 (F i j) (F (i + 1) j) (F (i + 1) (j + 1)) (F i (j + 1)) ≤ cell x y F i j vx vy
+    ∧ cell x y F i j vx vy ≤ max4 (F i j) (F (i + 1) j) (F (i + 1) (j + 1)) (F i (j + 1)) := by
+  obtain ⟨t0, t1⟩ := frac_mem hx hx0 hx1
+  obtain ⟨u0, u1⟩ := frac_mem hy hy0 hy1
+  obtain ⟨a0, a1, a2, a3⟩ := min4_le (F i j) (F (i + 1) j) (F (i + 1) (j + 1)) (F i (j + 1))
+  obtain ⟨b0, b1, b2, b3⟩ := le_max4 (F i j) (F (i + 1) j) (F (i + 1) (j + 1)) (F i (j + 1))
+  unfold cell
+  exact bilinear_hull t0 t1 u0 u1 a0 a1 a2 a3 b0 b1 b2 b3
+
+/-- the value is continuous across the edge shared by two neighbouring cells (both directions) -/
+theorem bilinear_edge_continuous {x y : Nat → Rat} (F : Nat → Nat → Rat) {i j : Nat} (vx vy : Rat) :
+    (x i ≠ x (i + 1) → x (i + 1) ≠ x (i + 2) →
+      cell x y F i j (x (i + 1)) vy = cell x y F (i + 1) j (x (i + 1)) vy)
+    ∧ (y j ≠ y (j + 1) → y (j + 1) ≠ y (j + 2) →
+      cell x y F i j vx (y (j + 1)) = cell x y F i (j + 1) vx (y (j + 1))) := by
+  constructor
+  · intro h1 _
+    have h1' : x (i + 1) - x i ≠ 0 := sub_ne_zero.mpr (Ne.symm h1)
+    unfold cell bilinear
+    simp only [sub_self, zero_div, div_self h1']
+    ring
+  · intro h1 _
+    have h1' : y (j + 1) - y j ≠ 0 := sub_ne_zero.mpr (Ne.symm h1)
+    unfold cell bilinear
+    simp only [sub_self, zero_div, div_self h1']
+    ring
+
+/-- a table sampled from `A + B·x + C·y + D·x·y` is reproduced exactly, everywhere (also in the
+    extrapolation zone) -/
+theorem bilinear_reproduces_bilinear {x y : Nat → Rat} {F : Nat → Nat → Rat} {A B C D : Rat} {i j : Nat}
+    (hx : x i ≠ x (i + 1)) (hy : y j ≠ y (j + 1))
+    (hF : ∀ a b, (a = i ∨ a = i + 1) → (b = j ∨ b = j + 1) → F a b = A + B * x a + C * y b + D * x a * y b)
+    (vx vy : Rat) : cell x y F i j vx vy = A + B * vx + C * vy + D * vx * vy := by
+  have hx' : x (i + 1) - x i ≠ 0 := sub_ne_zero.mpr (Ne.symm hx)
+  have hy' : y (j + 1) - y j ≠ 0 := sub_ne_zero.mpr (Ne.symm hy)
+  unfold cell bilinear
+  rw [hF i j (Or.inl rfl) (Or.inl rfl), hF (i + 1) j (Or.inr rfl) (Or.inl rfl),
+    hF (i + 1) (j + 1) (Or.inr rfl) (Or.inr rfl), hF i (j + 1) (Or.inl rfl) (Or.inr rfl)]
+  field_simp
+  ring
+
+/-- what `Interpolation_2D::Interpolate` returns, given the cell the two `Locate` calls chose -/
+theorem interpolate2_is_cell {o : Obj2} {vx vy : Rat} {i j : Nat} {ox' oy' : Obj}
+    (hx : o.ox.locate vx = .ok (i, ox')) (hy : o.oy.locate vy = .ok (j, oy')) :
+    o.interpolate vx vy = .ok (o.pref * cell o.ox.x o.oy.x o.F i j vx vy, { o with ox := ox', oy := oy' }) :=
+  interpolate2_eq hx hy
+
 end Lp.C01
